@@ -20,12 +20,40 @@ from engine import core                       # noqa: E402
 from engine.compdb import AnalysisBroken      # noqa: E402
 
 
+def self_validate(ctx, prop):
+    """thorough tier: the checker must fire on every seeded variant of its property and stay silent on
+    every neutral one (sa/mutants/*.json; variants are analysed in scratch copies, never executed)."""
+    import selftest
+    variants = [v for v in selftest.load_variants() if v["property"] == prop]
+    if not variants:
+        ctx.note("thorough: no self-validation variant registered for %s" % prop)
+        return None
+    from concurrent.futures import ThreadPoolExecutor
+    bad = []
+    with ThreadPoolExecutor(max_workers=4) as ex:
+        for v, (ok, code, out) in zip(variants, ex.map(selftest.run_variant, variants)):
+            if ok:
+                ctx.ob("SELF-VALIDATION", "%s variant %s: %s" % (v["kind"], v["id"],
+                                                               "reported" if v["kind"] == "seeded" else "silent"),
+                       True, "sa/mutants", "check exit %d on the variant" % code)
+            else:
+                # a checker that cannot be shown to fire (or that fires on a neutral edit) is not trusted:
+                # analysis-broken, never a violation of the property
+                ctx.note("self-validation FAILED on %s variant %s (check exit %d)" % (v["kind"], v["id"], code))
+                bad.append(v["id"])
+    if bad:
+        return "checker self-validation failed on variant(s): %s" % ", ".join(bad)
+    return None
+
+
 def run_property(prop, tier, seed):
     ctx = core.Ctx(prop, tier, seed)
     broken = None
     try:
         mod = importlib.import_module("rules." + prop)
         mod.run(ctx)
+        if tier == "thorough" and not os.environ.get("VERIF_NO_SELFTEST"):
+            broken = self_validate(ctx, prop)
     except AnalysisBroken as e:
         broken = str(e)
     except Exception:
